@@ -68,6 +68,11 @@ pub fn parse_term<'a>(t: &mut std::slice::Iter<'a, &'a str>) -> Option<Value> {
             let u: u32 = t.next()?.parse().ok()?;
             Value::Numeric(Numeric::new(x, unit_of(u)), true)
         }
+        "na" => {
+            let x = f64_of(t.next()?)?;
+            let u: u32 = t.next()?.parse().ok()?;
+            Value::Numeric(Numeric::new(x, unit_of(u)), false)
+        }
         "s" => {
             let q = match *t.next()? {
                 "n" => Quotes::None,
@@ -225,6 +230,24 @@ pub fn run(op: &str, f: &[&str]) -> Option<String> {
             ]
             .iter()
             .map(|e| scss_char(&a, &b, e))
+            .collect();
+            Some(r)
+        }
+        "seqin" => {
+            // operands substituted inline (no variables: a variable read marks a number "calculated")
+            let a = unhex_str(f.get(3)?);
+            let b = unhex_str(f.get(4)?);
+            let r: String = [
+                ("a", "==", "b"), ("b", "==", "a"), ("a", "!=", "b"), ("b", "!=", "a"),
+                ("a", "==", "a"), ("b", "==", "b"), ("a", "<", "b"), ("a", ">", "b"),
+                ("a", "<=", "b"), ("a", ">=", "b"), ("b", "<", "a"), ("b", ">", "a"),
+            ]
+            .iter()
+            .map(|(l, op, r)| {
+                let l = if *l == "a" { &a } else { &b };
+                let r = if *r == "a" { &a } else { &b };
+                scss_char("0", "0", &format!("{l} {op} {r}"))
+            })
             .collect();
             Some(r)
         }
